@@ -118,31 +118,24 @@ func (c *Ctx) WatermarkGuards(prop string, s *Slashing, kind string) {
 			if d.Name == "source" {
 				rule = prop + ".O3 guard.source"
 			}
-			ins, path := an.Cut(an.CutQuery{
-				From:   an.Entry(F),
-				Target: func(i ssa.Instruction) bool { return i == site },
-				AcceptEdge: c.WithSummaries(func(a *an.Atom, sub Subst) bool {
-					return s.watermarkAtomS(a, sub, d.Kind, d.StateFld, d.ReqField, d.Strict)
-				}),
+			isRoot := func(f *ssa.Function) bool { return f == s.Attest || f == s.AttestB || f == s.Propose }
+			ok, path := c.InterCut(F, site, isRoot, func(a *an.Atom, sub Subst) bool {
+				return s.watermarkAtomS(a, sub, d.Kind, d.StateFld, d.ReqField, d.Strict)
 			})
 			want := fmt.Sprintf("every path to APPROVED passes [state.%s < 0] or [request %s %s uint64(state.%s)]", d.StateFld, d.ReqField, map[bool]string{true: ">", false: ">="}[d.Strict], d.StateFld)
-			if ins != nil {
-				c.R.Fail(rule, Fn(F), c.Pos(site), "APPROVED is reachable without the "+d.Name+" watermark comparison", want, an.PathString(c.Pos, path))
+			if !ok {
+				c.R.Fail(rule, Fn(F), c.Pos(site), "APPROVED is reachable without the "+d.Name+" watermark comparison", want, path)
 			} else {
 				c.R.OK(rule, Fn(F), c.Pos(site), want)
 			}
 			// bound guard on the approving path (O6 local form): the request value is <= MaxInt64
 			ruleB := prop + ".O6 conv.narrow/approve-bound." + d.Name
-			ins, path = an.Cut(an.CutQuery{
-				From:   an.Entry(F),
-				Target: func(i ssa.Instruction) bool { return i == site },
-				AcceptEdge: c.WithSummaries(func(a *an.Atom, sub Subst) bool {
-					return s.boundAtomS(a, sub, d.Kind, d.ReqField)
-				}),
+			ok, path = c.InterCut(F, site, isRoot, func(a *an.Atom, sub Subst) bool {
+				return s.boundAtomS(a, sub, d.Kind, d.ReqField)
 			})
 			wantB := fmt.Sprintf("every path to APPROVED passes [request %s <= MaxInt64] (the watermark is an int64)", d.ReqField)
-			if ins != nil {
-				c.R.Fail(ruleB, Fn(F), c.Pos(site), "APPROVED is reachable for request "+d.ReqField+" values >= 2^63, which wrap to a negative watermark", wantB, an.PathString(c.Pos, path))
+			if !ok {
+				c.R.Fail(ruleB, Fn(F), c.Pos(site), "APPROVED is reachable for request "+d.ReqField+" values >= 2^63, which wrap to a negative watermark", wantB, path)
 			} else {
 				c.R.OK(ruleB, Fn(F), c.Pos(site), wantB)
 			}
